@@ -585,8 +585,10 @@ class _Validator(Generic[T]):
         message = email.message.EmailMessage()
         try:
             message["content-type"] = value
-        except ValueError as exc:
-            # e.g. a value containing a line break
+        except (ValueError, IndexError) as exc:
+            # e.g. a value containing a line break (ValueError), or an RFC 2231
+            # parameter such as "a*" that the standard library's header parser
+            # indexes past the end of (IndexError)
             raise self._invalid_metadata(
                 f"{value!r} is invalid for {{field}}", cause=exc
             ) from exc
